@@ -40,6 +40,7 @@ var methodShapes = []secShape{
 	{"s2[b]|s1[a]", []scen.Sec{sec("s2", "b"), sec("s1", "a")}},
 	{"s1[a]|s1[b]", []scen.Sec{sec("s1", "a"), sec("s1", "b")}},
 	{"zz[a]", []scen.Sec{sec("zz", "a")}},
+	{"s1(no properties)", []scen.Sec{{Scheme: "s1", Scopes: []string{}, NoProps: true}}},
 }
 
 var ctlShapes = []secShape{
@@ -47,6 +48,7 @@ var ctlShapes = []secShape{
 	{"s1[c]", []scen.Sec{sec("s1", "c")}},
 	{"s2[c]|s1[d]", []scen.Sec{sec("s2", "c"), sec("s1", "d")}},
 	{"zz[c]", []scen.Sec{sec("zz", "c")}},
+	{"s2(no properties)", []scen.Sec{{Scheme: "s2", Scopes: []string{}, NoProps: true}}},
 }
 
 type cfgShape struct {
